@@ -137,15 +137,21 @@ theorem Post.read7 : Post Sbdf.read7 (fun v => v ≤ INT_MAX) := by
       intro shl res d pos a pos' h
       simp only [read7Aux] at h
       obtain ⟨b, p1, _, h2⟩ := P.bind_eq_ok.mp h
-      split at h2
-      · split at h2
-        · split at h2
-          · simp [P.fail] at h2
-          · exact ih _ _ d p1 a pos' h2
-        · simp only [P.pure, Except.ok.injEq, Prod.mk.injEq] at h2
-          rw [← h2.1]
-          unfold toInt32 INT_MAX; split <;> omega
-      · simp [P.ub] at h2
+      by_cases hg : shl = 28 ∧ leNat b % 128 ≥ 16
+      · rw [if_pos hg] at h2; simp [P.fail] at h2
+      · rw [if_neg hg] at h2
+        by_cases hshl : shl < 32
+        · rw [if_pos hshl] at h2
+          by_cases h128 : leNat b ≥ 128
+          · rw [if_pos h128] at h2
+            by_cases hf : f = 0
+            · rw [if_pos hf] at h2; simp [P.fail] at h2
+            · rw [if_neg hf] at h2; exact ih _ _ d p1 a pos' h2
+          · rw [if_neg h128] at h2
+            simp only [P.pure, Except.ok.injEq, Prod.mk.injEq] at h2
+            rw [← h2.1]
+            unfold toInt32 INT_MAX; split <;> omega
+        · rw [if_neg hshl] at h2; simp [P.ub] at h2
   exact key 5 0 0 d pos a pos' he
 
 theorem Post.readElem (c : Cfg) (isStr packed : Bool) :
